@@ -130,6 +130,12 @@ def run_check(pid, tier, seed, replay=None, budget_s=None):
             a = axioms.get(t)
             good = a is not None and set(a) <= core.ALLOWED_AXIOMS
             ob("theorem " + t, good, "axioms: %s" % (a,) if a is not None else "theorem missing or not checked\n" + aout[-800:])
+        if tier == "thorough":
+            # independent re-check of the compiled property modules
+            for m in prop.LEAN_MODULES:
+                with core.Lock("lake"):
+                    rc, lout = core.sh(["lake", "env", "leanchecker", m], cwd=core.LEAN, timeout=1800)
+                ob("leanchecker " + m, rc == 0, lout)
     else:
         for t in prop.THEOREMS:
             ob("theorem " + t, False, "lake build failed")
